@@ -11,9 +11,11 @@
                    content, events, resulting configuration);
     [c05_ok]     : the right-hand sides of the iff theorems, atomicity and the
                    Ok-specifications evaluated on what the implementation did
-                   (with the code's own notion of "held", outside known finding F01a);
-    [c05_strict] : the property text read strictly (family-aware holding, stored
-                   ASPA configuration equals the request, no child left with nothing). *)
+                   (with the code's own holding check [is_held_by]);
+    [c05_strict] : the property text stated independently of the code's check
+                   (a block of the prefix's own family covers it, in the family's
+                   own address space; stored ASPA definitions well-formed; no child
+                   left with nothing). *)
 From KV Require Import base.Tac conf.AMap conf.Roa conf.Aspa conf.Bgpsec conf.Child.
 Open Scope N_scope.
 
@@ -170,7 +172,7 @@ Definition bgp_expected (pre : bview) (u : bupdates) (k : bkey) : option N :=
 Definition child_refuse_spec (held : resources) (pre : children) (o : cop) : bool :=
   match o with
   | CAdd c r => rs_is_empty r || negb (rs_contains held r) || has N.eqb pre c
-  | CUpdate c r => negb (rs_contains held r) || negb (has N.eqb pre c)
+  | CUpdate c r => rs_is_empty r || negb (rs_contains held r) || negb (has N.eqb pre c)
   end.
 Definition child_expected (pre : children) (o : cop) (k : N) : option resources :=
   match o with
@@ -184,8 +186,7 @@ Definition c05_ok (c : case) : bool :=
   | CRoaCmd res pre d (RoaCmdOk post) => roa_ok res pre (explicit_delta d) false None (Some post)
   | CRoaCmd res pre d (RoaCmdErr e post) => roa_ok res pre (explicit_delta d) true (Some e) (Some post)
   | CAspa res pre u (AspaOk post) =>
-      negb (aspa_refuse_spec res pre u)
-      && (if aspa_simple_request_b u then aspa_matches_request pre u post else true)
+      negb (aspa_refuse_spec res pre u) && aspa_matches_request pre u post
   | CAspa res pre u (AspaErr e post) => aspa_refuse_spec res pre u && aspas_eqb post pre
   | CAspaEx res pre c u (AspaOk post) =>
       negb (aspa_ex_refuse_spec res pre c u)
